@@ -137,7 +137,9 @@ def mandatory_parents(chk: Check):
                         cid = x[2]
             if cid is None:
                 continue
-            tab = reach_table(conds, {"cid": cid}, [{"cid": "ffffffff"}, {"cid": "12345678"}, {"cid": "FFFFFFFF"}])
+            # the descriptor object the CID is looked up in exists (its truthiness may be part of the same test)
+            present = {x[1]: 1 for x in S.walk(cid) if isinstance(x, tuple) and x and x[0] == "attr" and x[2] == "attr"}
+            tab = reach_table(conds, {"cid": cid}, [{"cid": "ffffffff"}, {"cid": "12345678"}, {"cid": "FFFFFFFF"}], override=present)
             sites.append((n, t[0] == "call" and t[1] == f"{rel}::open_parent" and tab[0] is False and tab[1] is True))
     chk.decide(len(sites) == 2 and all(ok for _, ok in sites), "K-PATH", "vmdk:parent-opened-when-required", init.func,
                f"{len(sites)} sites: parentCID != 'ffffffff' => parent = open_parent(dir, parentFileNameHint)")
